@@ -114,9 +114,19 @@ def _num(r: random.Random):
     return float(r.randint(-5, 5))
 
 
+def _label(r: random.Random, maxlen: int, allow_empty=True) -> str:
+    """Series name / category label: mostly the shared markup-biased text; rarely a string that a spreadsheet writer
+    could take for a formula (known finding F-19 keeps these rare so that they do not dominate the runs)."""
+    if r.random() < 0.01:
+        return r.choice(["=1+1", "=SUM(A1)", "{=x}", "="])
+    return xml_text(r, maxlen, allow_empty)
+
+
 def gen_chart_data(r: random.Random, kind: str, max_series=6, max_points=8, min_series=0,
                    allow_multilevel=True) -> dict:
-    ns = r.choice([min_series, 1, 1, 2, 3, r.randint(min_series, max_series)])
+    ns = r.choice([1, 1, 2, 3, r.randint(min_series, max(max_series, min_series)), r.randint(1, max(max_series, 1))])
+    if r.random() < 0.04:
+        ns = 0  # charts without series are legal input but end in known findings F-8 / F-10: keep them rare
     ns = max(ns, min_series)
     rec: dict = {"kind": kind}
     if r.random() < 0.3:
@@ -125,7 +135,7 @@ def gen_chart_data(r: random.Random, kind: str, max_series=6, max_points=8, min_
         ctype = r.choice(["str", "str", "str", "num", "date", "multi" if allow_multilevel else "str"])
         npts = r.choice([1, 2, 3, r.randint(1, max_points)])
         if ctype == "str":
-            cats = [xml_text(r, 12, allow_empty=True) for _ in range(npts)]
+            cats = [_label(r, 12) for _ in range(npts)]
         elif ctype == "num":
             cats = [r.choice([r.randint(-50, 50), round(r.uniform(-10, 10), 2)]) for _ in range(npts)]
         elif ctype == "date":
@@ -138,7 +148,7 @@ def gen_chart_data(r: random.Random, kind: str, max_series=6, max_points=8, min_
             depth = r.randint(2, 4)
 
             def tree(d):
-                label = xml_text(r, 8, allow_empty=False)
+                label = _label(r, 8, allow_empty=False)
                 if d == 1:
                     return {"label": label}
                 n = r.choice([1, 1, 2, 3])  # uniform depth is a documented requirement
@@ -152,7 +162,7 @@ def gen_chart_data(r: random.Random, kind: str, max_series=6, max_points=8, min_
         series = []
         for i in range(ns):
             nv = npts if r.random() < 0.8 else r.randint(0, npts + 2)
-            s = {"name": xml_text(r, 12), "values": [_num(r) for _ in range(nv)]}
+            s = {"name": _label(r, 12), "values": [_num(r) for _ in range(nv)]}
             if r.random() < 0.15:
                 s["number_format"] = r.choice(NUMBER_FORMATS)
             series.append(s)
@@ -170,7 +180,7 @@ def gen_chart_data(r: random.Random, kind: str, max_series=6, max_points=8, min_
                     pts.append([x, y, abs(r.choice([1, 2, 10, 0.5, r.randint(0, 30)]))])
                 else:
                     pts.append([x, y])
-            s = {"name": xml_text(r, 12), "points": pts}
+            s = {"name": _label(r, 12), "points": pts}
             if r.random() < 0.15:
                 s["number_format"] = r.choice(NUMBER_FORMATS)
             series.append(s)
